@@ -1051,7 +1051,19 @@ func TestVerifC44(t *testing.T) {
 	defer out.Close()
 	ops, replay := vh.ReplayOps()
 	if !replay {
-		ops = verifC44Generate(vh.Seed())
+		// VERIF_C44_PREFIX: op lines (the corpus) executed before the generated ones, in the same process
+		if pf := os.Getenv("VERIF_C44_PREFIX"); pf != "" {
+			b, err := os.ReadFile(pf)
+			if err != nil {
+				t.Fatal(err)
+			}
+			for _, l := range strings.Split(string(b), "\n") {
+				if strings.TrimSpace(l) != "" {
+					ops = append(ops, l)
+				}
+			}
+		}
+		ops = append(ops, verifC44Generate(vh.Seed())...)
 	}
 	h := &verifC44H{t: t}
 	defer h.close()
